@@ -7,7 +7,7 @@ model (`runHeap`) with the idiom table regenerated from the Go source and Go 1.2
 is the content of every pool entry at the end — byte-identical with what the harness reads off the real values.
 -/
 namespace C08
-open Sx Pcore.Coll
+open Sx Pcore.Heap
 
 /-! ### Go 1.23 `growslice` (runtime/slice.go `nextslicecap`, runtime/msize.go `roundupsize`, sizeclasses.go) -/
 
